@@ -8,6 +8,7 @@ import (
 	"regexp"
 	"regexp/syntax"
 	"sort"
+	"strconv"
 	"strings"
 
 	"github.com/metrico/qryn/reader/logql/logql_transpiler_v2/shared"
@@ -311,6 +312,7 @@ func predSplit(c splitCase, o *evid.Obs) error {
 	classifyRegexAndTemplates(e, split, upRows, &fl, o)
 	noParser := classifyGetterFacing(c, e, split, upRows, o)
 	classifyDropAndExtremes(e, split, upRows, finalRows, o)
+	classifyNumberTextAndLastBucket(c, e, afterBreaker, finalRows, o)
 	o.Tag("batching:"+chunkClass(c.Chunks), "batching:"+chunkClass(c.Chunks2))
 	twins := concatTwins(afterBreaker) || concatTwins(finalRows)
 	if twins {
@@ -872,6 +874,90 @@ func classifyDropAndExtremes(e *refeval.Expr, split int, upRows, finalRows []ref
 			if c >= 2 && !pos[k] {
 				o.Tag("vector-" + e.AggFn + ":group-of-several-values-all-nonpositive")
 				break
+			}
+		}
+	}
+}
+
+// classifyNumberTextAndLastBucket tags (a) extracted label values that are numbers whose text
+// carries more than their float64 value, and what the query does with them, (b) metric queries
+// whose END lies strictly inside the last range bucket while that bucket holds samples.
+func classifyNumberTextAndLastBucket(c splitCase, e *refeval.Expr, afterBreaker, finalRows []refeval.Row, o *evid.Obs) {
+	byFloat := map[string]map[float64]string{} // label -> float value -> first text
+	hot := map[string]bool{}
+	nonCanon, twinTexts := false, false
+	for _, r := range afterBreaker {
+		for k, v := range r.Labels {
+			f, err := strconv.ParseFloat(v, 64)
+			if err != nil {
+				continue
+			}
+			if strconv.FormatFloat(f, 'f', -1, 64) != v && strconv.FormatFloat(f, 'g', -1, 64) != v {
+				nonCanon = true
+				hot[k] = true
+			}
+			if byFloat[k] == nil {
+				byFloat[k] = map[float64]string{}
+			}
+			if t, ok := byFloat[k][f]; ok && t != v {
+				twinTexts = true
+				hot[k] = true
+			}
+			byFloat[k][f] = v
+		}
+	}
+	if nonCanon {
+		o.Tag("numtext:text-not-canonical-float")
+	}
+	if twinTexts {
+		o.Tag("numtext:equal-as-float-distinct-as-text")
+	}
+	if len(hot) > 0 {
+		for _, g := range []*refeval.Grouping{e.AggGroup, e.RangeGroup} {
+			if g == nil {
+				continue
+			}
+			for _, l := range g.Labels {
+				if hot[l] && !g.Without {
+					o.Tag("numtext:grouped-by")
+				}
+			}
+		}
+		if !e.IsMetric() || (e.AggGroup == nil && e.RangeGroup == nil) {
+			o.Tag("numtext:in-series-labels")
+		}
+		var walk func(f *refeval.LabelFilter)
+		walk = func(f *refeval.LabelFilter) {
+			if f == nil {
+				return
+			}
+			if f.Bool == "" && f.Str != nil && hot[f.Label] {
+				o.Tag("numtext:string-filter")
+			}
+			walk(f.L)
+			walk(f.R)
+		}
+		for _, st := range e.Stages {
+			if st.Kind == refeval.KLabelFilter {
+				walk(st.Filter)
+			}
+		}
+	}
+	if e.IsMetric() {
+		rng, to := e.RangeNs(), c.ToS*1e9
+		if rng > 0 && to%rng != 0 {
+			lo := to / rng * rng
+			for _, r := range finalRows {
+				if r.Err == "" && r.TsNs >= lo && r.TsNs < lo+rng {
+					o.Tag("last-bucket:end-strictly-inside-with-samples")
+					if e.AggFn != "" {
+						o.Tag("last-bucket:end-strictly-inside-with-samples:vector-agg")
+					}
+					if r.TsNs >= to {
+						o.Tag("last-bucket:sample-after-end-in-last-bucket")
+					}
+					break
+				}
 			}
 		}
 	}
